@@ -408,6 +408,7 @@ theorem wrapperWrites_for (s : Index) : ∀ w ∈ wrapperWrites s, WriteFor s w 
     · simp at hw
   · simp only [purgeWrites, List.mem_map, List.mem_filter] at hw
     obtain ⟨i, ⟨_, hnone⟩, rfl⟩ := hw
+    rw [purgeDeletes_eq] at hnone
     simp only [WriteFor]
     cases hg : getNode s.nodes i <;> simp_all
 
@@ -750,5 +751,44 @@ theorem reachW_winv {D : Durable} {s : Index} (h : ReachW D s) : WInv D s := by
   | flush _ ih => exact winv_flush ih
   | window steps _ ih => exact winv_window ih steps
   | load D' pick s' hl => exact load_winv hl
+
+/-! ### purge after a torn flush never deletes a live blob -/
+
+theorem applyWrites_dels_other (i : Nat) : ∀ (ws : List Write) (D : Durable),
+    (∀ w ∈ ws, ∃ j, w = Write.del j ∧ j ≠ i) → getBlob (applyWrites D ws).blobs i = getBlob D.blobs i := by
+  intro ws
+  induction ws with
+  | nil => intro D _; rfl
+  | cons w r ih =>
+    intro D hw
+    simp only [applyWrites, List.foldl_cons]
+    have := ih (applyWrite D w) (fun w' hw' => hw w' (List.mem_cons_of_mem _ hw'))
+    simp only [applyWrites] at this
+    rw [this]
+    obtain ⟨j, rfl, hj⟩ := hw w (List.mem_cons_self ..)
+    simp only [applyWrite, getBlob_filter, hj, if_false]
+
+theorem purge_keeps_live_blob (D : Durable) (s : Index) (i : Nat) (n : Node) (hg : getNode s.nodes i = some n) :
+    getBlob (applyWrites D (purgeWrites s)).blobs i = getBlob D.blobs i := by
+  apply applyWrites_dels_other
+  intro w hw
+  simp only [purgeWrites, List.mem_map, List.mem_filter] at hw
+  obtain ⟨j, ⟨_, hd⟩, rfl⟩ := hw
+  rw [purgeDeletes_eq] at hd
+  refine ⟨j, rfl, ?_⟩
+  intro e
+  subst e
+  rw [hg] at hd
+  simp at hd
+
+theorem purge_skips_live_tombstone (s : Index) (i : Nat) (hl : (getNode s.nodes i).isSome = true) :
+    Write.del i ∉ purgeWrites s := by
+  intro hw
+  simp only [purgeWrites, List.mem_map, List.mem_filter] at hw
+  obtain ⟨j, ⟨_, hd⟩, hj⟩ := hw
+  simp only [Write.del.injEq] at hj
+  subst hj
+  rw [purgeDeletes_eq] at hd
+  cases hg : getNode s.nodes j <;> simp_all
 
 end AndaVerif.Hnsw
